@@ -128,6 +128,7 @@ def gen_read_op(rng, shape, sd):
                        "gather", "masked_select", "where", "arith", "getkey", "select_keys", "apply", "len_iter", "flatten_keys",
                        "masked_fill", "to_dtype", "to_dict", "empty", "flat_unflat", "item_shape", "bool_ops", "items",
                        "torch_fn", "apply_other", "inplace_keys", "named_apply",
+                       "keys_variants", "contains", "get_default", "entry_class", "to_shallow", "values_nested",
                        "where", "where", "masked_fill", "gather", "split", "expand", "repeat_interleave"])   # extra weight: ops with their own lazy code
     if kind == "unsqueeze":
         d = rand_dim(rng, r, 1)
@@ -325,6 +326,26 @@ def gen_read_op(rng, shape, sd):
         return kind, [], lambda x: x.apply(lambda a, b: a * 2 + b, x + 1)
     if kind == "named_apply":
         return kind, [], lambda x: x.named_apply(lambda name, t: t + len(name), nested_keys=True)
+    if kind == "keys_variants":
+        inc, leaves = rng.random() < 0.5, rng.random() < 0.5
+
+        def f(x, inc=inc, leaves=leaves):
+            ks = sorted(".".join(k) if isinstance(k, tuple) else k for k in x.keys(include_nested=inc, leaves_only=leaves))
+            return [len(ks)] + [torch.tensor([ord(c) for c in k]) for k in ks]
+        return kind, [inc, leaves], f
+    if kind == "contains":
+        k = rng.choice(["a", "zz", ("n", "c"), ("n", "zz"), "n"])
+        return kind, [str(k)], lambda x: [k in x.keys(True), len(x.keys())]
+    if kind == "get_default":
+        k = rng.choice(["a", "zz", ("n", "c"), ("n", "zz")])
+        return kind, [str(k)], lambda x: x.get(k, None) if x.get(k, None) is not None else [0]
+    if kind == "entry_class":
+        k = rng.choice(["a", "n", ("n", "c")])
+        return kind, [str(k)], lambda x: [issubclass(x.entry_class(k), torch.Tensor)]
+    if kind == "to_shallow":
+        return kind, [], lambda x: x.clone(False).apply(lambda t: t + 1)
+    if kind == "values_nested":
+        return kind, [], lambda x: sorted(x.values(True, True), key=lambda t: (t.dim(), float(t.reshape(-1)[0]) if t.numel() else 0.0))
     if kind == "inplace_keys":
         which = rng.choice(["select", "exclude"])
         k = rng.choice(["a", "b", ("n", "c")])
@@ -485,8 +506,12 @@ def gen_mut_op(rng, shape, sd, bs, n):
         if kind == "set_at_":
             v = value_for(rng, ibs)["a"]
             return kind, [ix], tag(lambda x: x.set_at_("a", v.clone(), index), TensorDict({"a": v}, list(ibs)))
-        v = torch.tensor(-7.0)
-        return kind, [ix], tag(lambda x: x.__setitem__(index, v), v)
+        # a value torch broadcasts against every leaf: a number, a 0-dim tensor, singleton dims
+        how = rng.choice(["0-dim", "number", "ones"])
+        v = torch.tensor(-7.0) if how != "ones" else torch.full((1,) * rng.randint(1, 2), -7.0)
+        if how == "number":
+            return kind, [ix, how], tag(lambda x: x.__setitem__(index, -7.0), torch.tensor(-7.0))
+        return kind, [ix, how], tag(lambda x: x.__setitem__(index, v), v)
     full = value_for(rng, tuple(shape))
     if kind == "set_key":
         k = rng.choice(["a", "new"])
